@@ -20,7 +20,7 @@ from .ctx import Ctx
 from .model import AnalysisError, FunctionInfo
 from .report import RuleResult
 from .terms import (Attr, BoundMethod, Call, ClassRef, Const, EnumMember, Evaluator, Ext, FuncRef, Ite, Loop, New, Op,
-                    Opaque, Outcome, Sub, Sym, Term, TupleT, alternatives, default_inline, expand_outcomes, guards_repr, norm_guards, walk)
+                    Opaque, Outcome, Sub, Sym, Term, TupleT, alternatives, default_inline, expand_outcomes, unglobal, guards_repr, norm_guards, walk)
 from .util import call_name, call_recv, method_calls
 
 ALIAS = {'a': 'operand1', 'b': 'operand2', 'p': 'condition', 'phi': 'condition', 'd': 'domain', 'x': 'variable', 'op': 'operator', 'operand': 'operand1'}
@@ -1026,7 +1026,12 @@ def R6(ctx: Ctx) -> RuleResult:
         vop = v.get('operator')
         if vop != op:
             # mirrored operator from the inverse table with swapped operands
-            inv_ok = isinstance(vop, Call) and call_name(vop) == 'get' and vop.args and vop.args[0] == op and 'INVERSE_OPERATORS' in repr(vop)
+            inv_tab = ctx.ev.global_term(fi.module, 'INVERSE_OPERATORS')
+
+            def is_tab(t):
+                return 'INVERSE_OPERATORS' in repr(t) or t == inv_tab or unglobal(t) == unglobal(inv_tab)
+            inv_ok = (isinstance(vop, Call) and call_name(vop) == 'get' and vop.args and vop.args[0] == op and is_tab(call_recv(vop))) or \
+                (isinstance(vop, Sub) and vop.index == op and is_tab(vop.base))
             if inv_ok and v.get('operand1') == B and v.get('operand2') == A:
                 r.ok('mirror operator from INVERSE_OPERATORS with swapped operands')
             else:
